@@ -43,7 +43,7 @@ def case_strategy(draw, tier):
         rec = draw(heat_net(max_n=5 if tier == "quick" else 10, allow_makeup=True))
         opts = draw(heat_options())
     # one case in three is calculated on a net object with a history (see recipe.solve_after_prelude)
-    prelude = draw(st.sampled_from([None, None, None, None] + PRELUDES[:3] * 2 + PRELUDES[3:]))
+    prelude = draw(st.sampled_from([None, None, None, None] + PRELUDES[:3] * 2 + PRELUDES[3:] + PRELUDES[5:]))
     return {"recipe": rec, "options": opts, "prelude": prelude}
 
 
